@@ -278,6 +278,25 @@ Theorem C11_decimal_overflow_refuted :
 Proof. exact decimal_overflow_refuted. Qed.
 Print Assumptions C11_decimal_overflow_refuted.
 
+(* what does hold for Decimal128: a sum / product whose exact coefficient has
+   at most 34 digits and whose exponent is in range is stored exactly *)
+Theorem C11_mul_decimal_exact_partial : forall h1 l1 h2 l2 c1 e1 c2 e2,
+  dec_decode h1 l1 = DFin c1 e1 -> dec_decode h2 l2 = DFin c2 e2 ->
+  Z.abs (c1 * c2) <= d128_maxS -> d128_min_exp <= e1 + e2 <= d128_max_exp ->
+  exists h l, Mul (VDecimal h1 l1) (VDecimal h2 l2) = Ok (VDecimal h l) /\
+              dec_decode h l = DFin (c1 * c2) (e1 + e2).
+Proof. exact mul_decimal_exact_partial. Qed.
+Print Assumptions C11_mul_decimal_exact_partial.
+
+Theorem C11_add_decimal_exact_partial : forall h1 l1 h2 l2 c1 e1 c2 e2,
+  dec_decode h1 l1 = DFin c1 e1 -> dec_decode h2 l2 = DFin c2 e2 ->
+  let e := Z.min e1 e2 in
+  let c := c1 * zpow 10 (e1 - e) + c2 * zpow 10 (e2 - e) in
+  Z.abs c <= d128_maxS -> d128_min_exp <= e <= d128_max_exp ->
+  exists h l, Add (VDecimal h1 l1) (VDecimal h2 l2) = Ok (VDecimal h l) /\ dec_decode h l = DFin c e.
+Proof. exact add_decimal_exact_partial. Qed.
+Print Assumptions C11_add_decimal_exact_partial.
+
 (* ------------------------------------------------------------------ *)
 (* non-vacuity: concrete inputs meet the hypotheses and the conclusions are
    the expected documents *)
